@@ -16,7 +16,6 @@ THEOREMS = [
     "C05_cache_transparent_static",
     "C05_answers_are_uncached",
     "C05_spec_rebase_frame",
-    "C05_rebuild_outside_refuted",
 ]
 RULE = ("histories of 5-40 operations over 1-4 registries (invalidating, verifying, verifying over "
         "invalidating) built from (lookup, mutation, same lookup) triples whose key is chosen to be "
@@ -38,7 +37,7 @@ TRUSTED_BASE = [
 ASSUMPTIONS = [
     "theorems: histories of ONE registry flavour (all invalidating or all verifying), registries addressed "
     "after their creation, bases earlier in creation order (acyclic registry graph), no rebuild() "
-    "(C05_rebuild_outside_refuted: rebuild() forgets the sub-registries, in the code too); the tie also runs "
+    "(rebuild() used to forget the sub-registries, in the code too: repaired, see Example C05_rebuild_witness_transparent); the tie also runs "
     "verifying-over-invalidating chains, which the theorems do not cover",
     "generated histories never re-base an interface used as *provided* or one of its ancestors (outside the "
     "property; the theorems do not need this: extendors are stored state, so the caches stay transparent, "
@@ -61,7 +60,7 @@ LEVEL_TEXT = ("Machine-checked theorems (Properties/C05.v, closed under the glob
 LEVEL_NOTE = ("Trusted: Coq kernel/vm_compute; the shared transcriptions Model/Adapter, Lookup, RegSys and "
               "Model/CacheSys (validated by the correspondence); fresh_sro as the orders lookups walk (C02); the "
               "driver's translation of declaration calls into the __bases__ assignments it observes.  Not covered by "
-              "the theorems: mixed-flavour chains (tested only), rebuild() (refuted, real defect outside the "
+              "the theorems: mixed-flavour chains (tested only), rebuild() (was a real defect, repaired in /repo; outside the "
               "property's mutation list), weak-reference death of subscribed specifications.")
 
 MUT_KINDS = ("register", "unregister", "subscribe", "unsubscribe", "setregbases", "setspecbases",
